@@ -1,6 +1,612 @@
-//! C36 — not built yet.
-use vcommon::Args;
+//! C36 — well-known name bookkeeping follows the bus.
+//!
+//! Space: the FULL tree of operation/event histories up to a depth bound (no state merging: the
+//! connection's `registered_names` map and its monitor tasks are not observable without
+//! perturbing them). Every history is executed from scratch on a real zbus *bus* connection that
+//! faces the consistent fake bus of `fakebus.rs`.
+//!
+//! Alphabet per name (10 symbols):
+//!   request_name_with_flags(N, f) for f ∈ {∅, AllowReplacement, DoNotQueue, ReplaceExisting},
+//!   release_name(N),
+//!   peer :1.5 requests N with ReplaceExisting|AllowReplacement (becomes a replaceable owner if it
+//!     can take the name, else is queued behind us), peer :1.5 requests N with ReplaceExisting
+//!     (firm owner), peer :1.5 releases N (→ genuine NameAcquired if we are next in the queue),
+//!   forged NameLost(N) / NameAcquired(N): same path/interface/member/body as the driver's signal,
+//!     sent by peer :1.9 as a unicast to us (the bus stamps `:1.9` as sender).
+//! After the last operation every name is probed once with release_name.
+//!
+//! Oracle (only what the statement says). Reference = what the bus has told the connection:
+//! `told[N]` ∈ {none, owner, queued}, derived from the fake bus's name table after every bus
+//! transition (our RequestName/ReleaseName replies, the driver's NameLost/NameAcquired to us).
+//!   * request: told = owner ⇒ AlreadyOwner; told = queued ⇒ InQueue; told = none ⇒ the result is
+//!     the bus's reply to the RequestName this call must have sent (answering locally from stale
+//!     state is a violation).
+//!   * release: true ⇔ told ∈ {owner, queued}.
+//!   * forged signals never enter `told`; a violation that disappears when the forged events of
+//!     the history are removed is attributed to them (clause only-driver-signals-change-state).
+//! One situation is deliberately NOT judged because the statement is silent on it: when we are
+//! replaced as owner without DoNotQueue the bus silently keeps us in the queue (it only says
+//! NameLost); `told` is `none` then and a release result is not checked until the bus speaks
+//! again.
 
-pub fn main(_args: &Args) -> i32 {
-    vcommon::machinery_failure("C36: check not built yet")
+use serde_json::{json, Value};
+use vcommon::{catch, hash64, Args, Report, Violation};
+use zbus::fdo::{RequestNameFlags, RequestNameReply};
+
+use crate::{
+    fakebus::{self, Bus, F_ALLOW, F_NOQUEUE, F_REPLACE, US},
+    world::World,
+};
+
+const NAMES: [&str; 2] = ["x.y.N", "x.y.M"];
+const OTHER: &str = ":1.5";
+const FORGER: &str = ":1.9";
+const KINDS: usize = 10;
+
+type Flags = <RequestNameFlags as std::ops::BitOr>::Output;
+
+fn mk_flags(bits: u32) -> Flags {
+    // (the `Default` of this flag set is all three flags, so build the empty set explicitly)
+    let mut f: Flags = RequestNameFlags::AllowReplacement & RequestNameFlags::DoNotQueue;
+    if bits & F_ALLOW != 0 {
+        f = f | RequestNameFlags::AllowReplacement;
+    }
+    if bits & F_REPLACE != 0 {
+        f = f | RequestNameFlags::ReplaceExisting;
+    }
+    if bits & F_NOQUEUE != 0 {
+        f = f | RequestNameFlags::DoNotQueue;
+    }
+    f
+}
+
+#[derive(Clone, Copy, PartialEq, Eq, Debug, Hash)]
+enum Kind {
+    Req(u32),
+    Release,
+    PeerTakes(u32),
+    PeerReleases,
+    ForgedLost,
+    ForgedAcquired,
+}
+
+#[derive(Clone, Copy, PartialEq, Eq, Debug, Hash)]
+struct Op {
+    kind: Kind,
+    name: usize,
+}
+
+fn decode(code: usize) -> Op {
+    let name = code / KINDS;
+    let kind = match code % KINDS {
+        0 => Kind::Req(0),
+        1 => Kind::Req(F_ALLOW),
+        2 => Kind::Req(F_NOQUEUE),
+        3 => Kind::Req(F_REPLACE),
+        4 => Kind::Release,
+        5 => Kind::PeerTakes(F_REPLACE | F_ALLOW),
+        6 => Kind::PeerTakes(F_REPLACE),
+        7 => Kind::PeerReleases,
+        8 => Kind::ForgedLost,
+        _ => Kind::ForgedAcquired,
+    };
+    Op { kind, name }
+}
+
+fn label(op: &Op) -> String {
+    let n = NAMES[op.name];
+    match op.kind {
+        Kind::Req(0) => format!("request({n})"),
+        Kind::Req(F_ALLOW) => format!("request({n},AllowReplacement)"),
+        Kind::Req(F_NOQUEUE) => format!("request({n},DoNotQueue)"),
+        Kind::Req(F_REPLACE) => format!("request({n},ReplaceExisting)"),
+        Kind::Req(x) => format!("request({n},{x})"),
+        Kind::Release => format!("release({n})"),
+        Kind::PeerTakes(f) if f & F_ALLOW != 0 => format!("peer-takes-replaceable({n})"),
+        Kind::PeerTakes(_) => format!("peer-takes-firm({n})"),
+        Kind::PeerReleases => format!("peer-releases({n})"),
+        Kind::ForgedLost => format!("forged-NameLost({n})"),
+        Kind::ForgedAcquired => format!("forged-NameAcquired({n})"),
+    }
+}
+
+#[derive(Clone, Copy, PartialEq, Eq, Debug, Hash)]
+enum Told {
+    None,
+    Owner,
+    Queued,
+}
+
+#[derive(Clone, Copy, PartialEq, Eq, Debug)]
+enum Cause {
+    OwnRequest,
+    OwnRelease,
+    Peer,
+}
+
+/// What the bus has told the connection, per name.
+#[derive(Clone, Debug, Hash, PartialEq, Eq)]
+struct Ref {
+    told: [Told; 2],
+    /// The bus keeps us in the queue after a replacement but never said so.
+    implicit: [bool; 2],
+    /// How the current grant/queueing was communicated.
+    via: [&'static str; 2],
+}
+
+impl Ref {
+    fn new() -> Self {
+        Self {
+            told: [Told::None; 2],
+            implicit: [false; 2],
+            via: ["-"; 2],
+        }
+    }
+    fn resync(&mut self, bus: &Bus, i: usize, cause: Cause) {
+        let pos = bus.names.position(NAMES[i], US);
+        let before = self.told[i];
+        let was_implicit = self.implicit[i];
+        match pos {
+            Some(0) => {
+                if before != Told::Owner {
+                    self.via[i] = match cause {
+                        Cause::OwnRequest => "request-reply",
+                        _ if before == Told::Queued => "acquired-signal-while-queued",
+                        _ if was_implicit => "acquired-signal-after-replacement",
+                        _ => "acquired-signal",
+                    };
+                }
+                self.told[i] = Told::Owner;
+                self.implicit[i] = false;
+            }
+            Some(_) => match cause {
+                Cause::OwnRequest => {
+                    self.told[i] = Told::Queued;
+                    self.implicit[i] = false;
+                    self.via[i] = "request-reply";
+                }
+                _ if before == Told::Owner => {
+                    // replaced: the driver said NameLost, and keeps us queued without saying so
+                    self.told[i] = Told::None;
+                    self.implicit[i] = true;
+                    self.via[i] = "-";
+                }
+                _ => {}
+            },
+            None => {
+                self.told[i] = Told::None;
+                self.implicit[i] = false;
+                self.via[i] = "-";
+            }
+        }
+        let _ = Cause::OwnRelease;
+    }
+}
+
+#[derive(Clone, Debug)]
+struct StepViolation {
+    step: usize,
+    clause: &'static str,
+    detail: String,
+    feats: Vec<(&'static str, String)>,
+}
+
+#[derive(Default)]
+struct HistResult {
+    log: Vec<String>,
+    states: Vec<u64>,
+    violations: Vec<StepViolation>,
+    transitions: u64,
+    machinery: Option<String>,
+    outcomes: Vec<String>,
+    nontrivial: bool,
+}
+
+fn req_class(r: &Option<Result<zbus::Result<RequestNameReply>, String>>) -> String {
+    match r {
+        None => "pending".into(),
+        Some(Err(p)) => format!("panic:{p}"),
+        Some(Ok(Ok(RequestNameReply::PrimaryOwner))) => "PrimaryOwner".into(),
+        Some(Ok(Ok(RequestNameReply::InQueue))) => "InQueue".into(),
+        Some(Ok(Ok(RequestNameReply::AlreadyOwner))) => "AlreadyOwner".into(),
+        Some(Ok(Ok(RequestNameReply::Exists))) => "Exists".into(),
+        Some(Ok(Err(zbus::Error::NameTaken))) => "NameTaken".into(),
+        Some(Ok(Err(e))) => format!("error:{e}"),
+    }
+}
+
+fn code_class(code: &str) -> &'static str {
+    match code {
+        "ok:1" => "PrimaryOwner",
+        "ok:2" => "InQueue",
+        "ok:3" => "NameTaken",
+        "ok:4" => "AlreadyOwner",
+        _ => "?",
+    }
+}
+
+/// Execute one history on the real code. `no_forged` = leave the forged events out (used to
+/// attribute a violation).
+fn run_history(ops: &[Op], n_names: usize, no_forged: bool) -> HistResult {
+    let mut out = HistResult::default();
+    let mut w = World::new();
+    let mut bus = Bus::new();
+    let conn = match fakebus::connect(&mut w, &mut bus) {
+        Ok(c) => c,
+        Err(e) => {
+            out.machinery = Some(e);
+            return out;
+        }
+    };
+    let mut rf = Ref::new();
+    let mut last_forged: [&'static str; 2] = ["none"; 2];
+
+    let do_release = |w: &mut World,
+                          bus: &mut Bus,
+                          rf: &mut Ref,
+                          out: &mut HistResult,
+                          last_forged: &[&'static str; 2],
+                          step: usize,
+                          i: usize,
+                          probe: bool| {
+        let pre = rf.told[i];
+        let pre_implicit = rf.implicit[i];
+        let via = rf.via[i];
+        let n0 = bus.n_calls("ReleaseName");
+        let c = conn.clone();
+        let nm = NAMES[i];
+        let r = catch(|| fakebus::run(w, bus, "release_name", async move { c.release_name(nm).await }));
+        let traffic = bus.n_calls("ReleaseName") > n0;
+        let got = match &r {
+            Err(p) => format!("panic:{p}"),
+            Ok(None) => "pending".to_string(),
+            Ok(Some(Ok(b))) => b.to_string(),
+            Ok(Some(Err(e))) => format!("error:{e}"),
+        };
+        let expected = match (pre, pre_implicit) {
+            (Told::Owner | Told::Queued, _) => Some("true"),
+            (Told::None, true) => None,
+            (Told::None, false) => Some("false"),
+        };
+        out.transitions += 1;
+        out.outcomes.push(format!("release:{got}"));
+        out.log.push(format!(
+            "{}release({nm}) told={pre:?}{} -> {got}{}",
+            if probe { "probe " } else { "" },
+            if pre_implicit { "(bus keeps us queued silently)" } else { "" },
+            if traffic { " [asked the bus]" } else { "" }
+        ));
+        match expected {
+            Some(e) if e != got => out.violations.push(StepViolation {
+                step,
+                clause: "release-reports-held-or-queued",
+                detail: format!(
+                    "release_name({nm}) returned {got}, but the bus had {} (via {via}); expected {e}",
+                    match pre {
+                        Told::Owner => "granted the name and not taken it away",
+                        Told::Queued => "queued the request and not dropped it",
+                        Told::None => "neither granted nor queued the name",
+                    }
+                ),
+                feats: vec![
+                    ("op", "release".into()),
+                    ("told", format!("{pre:?}")),
+                    ("granted_via", via.into()),
+                    ("last_forged", last_forged[i].into()),
+                ],
+            }),
+            None => out.outcomes.push("release:unjudged-silent-requeue".into()),
+            _ => {}
+        }
+        rf.resync(bus, i, Cause::OwnRelease);
+    };
+
+    for (step, op) in ops.iter().enumerate() {
+        let i = op.name;
+        let nm = NAMES[i];
+        match op.kind {
+            Kind::Req(bits) => {
+                let pre = rf.told[i];
+                let via = rf.via[i];
+                let n0 = bus.n_calls("RequestName");
+                let c = conn.clone();
+                let flags = mk_flags(bits);
+                let r = catch(|| {
+                    fakebus::run(&mut w, &mut bus, "request_name", async move {
+                        c.request_name_with_flags(nm, flags).await
+                    })
+                });
+                let r = match r {
+                    Ok(None) => None,
+                    Ok(Some(x)) => Some(Ok(x)),
+                    Err(p) => Some(Err(p)),
+                };
+                let got = req_class(&r);
+                let traffic = bus.n_calls("RequestName") > n0;
+                let bus_said = bus
+                    .calls
+                    .iter()
+                    .rev()
+                    .find(|c| c.member == "RequestName")
+                    .map(|c| c.answer.clone())
+                    .unwrap_or_default();
+                out.transitions += 1;
+                out.outcomes.push(format!("request:{got}"));
+                out.log.push(format!(
+                    "{} told={pre:?} -> {got}{}",
+                    label(op),
+                    if traffic {
+                        format!(" [bus replied {}]", code_class(&bus_said))
+                    } else {
+                        " [answered locally]".into()
+                    }
+                ));
+                let expected: Result<&'static str, &'static str> = match pre {
+                    Told::Owner => Ok("AlreadyOwner"),
+                    Told::Queued => Ok("InQueue"),
+                    Told::None if traffic => Ok(code_class(&bus_said)),
+                    Told::None => Err("the bus has neither granted nor queued the name, yet the call was answered without asking the bus"),
+                };
+                let bad = match expected {
+                    Ok(e) => e != got,
+                    Err(_) => true,
+                };
+                if bad {
+                    out.violations.push(StepViolation {
+                        step,
+                        clause: "request-reports-granted-or-queued",
+                        detail: format!(
+                            "{} returned {got}; reference: told={pre:?} (via {via}), {}",
+                            label(op),
+                            match expected {
+                                Ok(e) => format!("expected {e}"),
+                                Err(e) => e.to_string(),
+                            }
+                        ),
+                        feats: vec![
+                            ("op", "request".into()),
+                            ("told", format!("{pre:?}")),
+                            ("granted_via", via.into()),
+                            ("last_forged", last_forged[i].into()),
+                        ],
+                    });
+                }
+                if traffic {
+                    rf.resync(&bus, i, Cause::OwnRequest);
+                }
+            }
+            Kind::Release => do_release(&mut w, &mut bus, &mut rf, &mut out, &last_forged, step, i, false),
+            Kind::PeerTakes(f) => {
+                let code = bus.peer_request_name(OTHER, nm, f);
+                fakebus::pump(&mut w, &mut bus);
+                rf.resync(&bus, i, Cause::Peer);
+                out.transitions += 1;
+                out.log.push(format!("{} -> peer got {code}; told={:?}", label(op), rf.told[i]));
+            }
+            Kind::PeerReleases => {
+                let code = bus.peer_release_name(OTHER, nm);
+                fakebus::pump(&mut w, &mut bus);
+                rf.resync(&bus, i, Cause::Peer);
+                out.transitions += 1;
+                out.log.push(format!("{} -> peer got {code}; told={:?}", label(op), rf.told[i]));
+            }
+            Kind::ForgedLost | Kind::ForgedAcquired => {
+                let member = if op.kind == Kind::ForgedLost { "NameLost" } else { "NameAcquired" };
+                if !no_forged {
+                    bus.forge_driver_signal(FORGER, member, &[nm]);
+                    last_forged[i] = member;
+                }
+                fakebus::pump(&mut w, &mut bus);
+                out.transitions += 1;
+                out.log.push(format!("{}{}", label(op), if no_forged { " (left out)" } else { "" }));
+            }
+        }
+        if rf.told.iter().any(|t| *t != Told::None) {
+            out.nontrivial = true;
+        }
+        out.states.push(hash64(&(&bus.names.names, &rf, out.log.last())));
+    }
+    for i in 0..n_names {
+        do_release(&mut w, &mut bus, &mut rf, &mut out, &last_forged, ops.len() + i, i, true);
+        out.states.push(hash64(&(&bus.names.names, &rf, out.log.last())));
+    }
+    if !bus.errors.is_empty() {
+        out.machinery = Some(format!("fake bus: {:?}", bus.errors));
+    }
+    if w.hit_horizon {
+        out.machinery = Some("pump did not reach quiescence".into());
+    }
+    drop(do_release);
+    drop(conn);
+    out
+}
+
+fn ops_of(index: usize, depth: usize, k: usize) -> Vec<Op> {
+    let mut v = vec![0usize; depth];
+    let mut n = index;
+    for i in (0..depth).rev() {
+        v[i] = n % k;
+        n /= k;
+    }
+    v.into_iter().map(decode).collect()
+}
+
+fn to_violation(ops: &[Op], n_names: usize, sv: &StepViolation, log: &[String], attributed: bool) -> Violation {
+    let codes: Vec<usize> = ops
+        .iter()
+        .map(|o| {
+            o.name * KINDS
+                + (0..KINDS)
+                    .find(|k| decode(*k).kind == o.kind)
+                    .unwrap_or(0)
+        })
+        .collect();
+    let labels: Vec<String> = ops.iter().map(label).collect();
+    let clause = if attributed { "only-driver-signals-change-state" } else { sv.clause };
+    let mut v = Violation::new(
+        clause,
+        format!(
+            "history [{}] step {}: {}{}",
+            labels.join("; "),
+            sv.step,
+            sv.detail,
+            if attributed {
+                " — the same history without its forged signals satisfies the clause, so a signal not sent by the bus driver changed the connection's name state"
+            } else {
+                ""
+            }
+        ),
+        json!({"names": n_names, "ops": codes, "labels": labels, "log": log}),
+    );
+    for (k, val) in &sv.feats {
+        // which forged signal came last only matters when the violation is attributed to it
+        if *k == "last_forged" && !attributed {
+            continue;
+        }
+        v = v.feat(k, val);
+    }
+    v.feat("attributed_to", if attributed { "forged-signal" } else { "history" })
+}
+
+struct Space {
+    n_names: usize,
+    depth: usize,
+}
+
+pub fn main(args: &Args) -> i32 {
+    if let Some(p) = &args.replay {
+        return replay(p);
+    }
+    if args.extra.iter().any(|a| a == "--audit-only") {
+        // development aid: run only the fake-bus audit against dbus-daemon and print the result
+        let depth = args.tier.pick(3, 4);
+        return match fakebus::audit_against_daemon(depth) {
+            Ok(a) => {
+                println!("{a}");
+                0
+            }
+            Err(e) => {
+                println!("{e:?}");
+                2
+            }
+        };
+    }
+    let report = Report::new("C36", args.tier, args.seed, "model_checking");
+    // quick: one name to depth 5 and two names to depth 3; thorough: one name to depth 6, two to 5.
+    let spaces: Vec<Space> = args.tier.pick(
+        vec![Space { n_names: 1, depth: 5 }, Space { n_names: 2, depth: 3 }],
+        vec![Space { n_names: 1, depth: 6 }, Space { n_names: 2, depth: 5 }],
+    );
+    let totals = fakebus::TreeTotals::default();
+    let mut spaces_json = vec![];
+    for sp in &spaces {
+        let k = KINDS * sp.n_names;
+        let n = k.pow(sp.depth as u32);
+        let t0 = std::time::Instant::now();
+        fakebus::par_histories(&report, &totals, n, 128, |idx, acc| {
+            let ops = ops_of(idx, sp.depth, k);
+            let res = run_history(&ops, sp.n_names, false);
+            if let Some(m) = &res.machinery {
+                vcommon::machinery_failure(&format!(
+                    "C36: {m} in history {:?}",
+                    ops.iter().map(label).collect::<Vec<_>>()
+                ));
+            }
+            acc.evals += 1;
+            acc.transitions += res.transitions;
+            for o in &res.outcomes {
+                acc.outcome(o);
+            }
+            let lh = hash64(&res.log);
+            acc.logs.insert(lh);
+            if res.nontrivial {
+                acc.nontrivial.push(lh);
+            }
+            acc.states.extend(res.states.iter().cloned());
+            if idx % (n / 6).max(1) == 0 {
+                report.sample(json!({"names": sp.n_names, "history": ops.iter().map(label).collect::<Vec<_>>(), "log": res.log}));
+            }
+            if !res.violations.is_empty() {
+                // Attribute: does the violation go away when the forged signals are left out?
+                let has_forged = ops
+                    .iter()
+                    .any(|o| matches!(o.kind, Kind::ForgedLost | Kind::ForgedAcquired));
+                let clean = if has_forged {
+                    Some(run_history(&ops, sp.n_names, true))
+                } else {
+                    None
+                };
+                // Only the first violation of a history is independent evidence (later ones may
+                // be consequences).
+                let sv = &res.violations[0];
+                let attributed = match &clean {
+                    Some(c) => !c.violations.iter().any(|x| x.step <= sv.step),
+                    None => false,
+                };
+                report.violation(to_violation(&ops, sp.n_names, sv, &res.log, attributed));
+            }
+        });
+        spaces_json.push(json!({"names": sp.n_names, "depth": sp.depth, "alphabet": k, "histories": n, "wall_s": (t0.elapsed().as_secs_f64()*1000.0).round()/1000.0}));
+    }
+    if args.tier == vcommon::Tier::Thorough {
+        match fakebus::audit_against_daemon(3) {
+            Ok(a) => report.set("fake_bus_audit", a),
+            Err(fakebus::AuditError::Unavailable(e)) => {
+                report.note(format!("fake-bus audit against dbus-daemon skipped: {e}"))
+            }
+            Err(fakebus::AuditError::Disagreement(e)) => {
+                vcommon::machinery_failure(&format!("C36: fake bus disagrees with dbus-daemon: {e}"))
+            }
+        }
+    }
+    fakebus::finish_tree(
+        &report,
+        &totals,
+        "distinct (fake-bus name table, reference told-state, observation) triples reached; informational, no merging is done",
+    );
+    report.set("spaces", json!(spaces_json));
+    report.assume("the fake bus (fakebus.rs) behaves like a message bus; its name model is audited against dbus-daemon 1.14 in the thorough tier");
+    report.assume("each operation is run to quiescence on the default schedule before the next one starts (schedule variation inside an operation is not part of this check)");
+    report.assume("the fake bus builds its wire messages with zbus's own message builder");
+    report.finish(
+        "all histories of exactly the stated depth over the 10-symbol-per-name alphabet (every prefix is judged step by step), plus a release probe per name at the end; non-trivial = the bus granted or queued a name at some step",
+        true,
+    )
+}
+
+fn replay(path: &str) -> i32 {
+    let art = vcommon::load_replay(path);
+    let rp: &Value = &art["replay"];
+    let n_names = rp["names"].as_u64().unwrap_or(1) as usize;
+    let ops: Vec<Op> = rp["ops"]
+        .as_array()
+        .map(|a| a.iter().map(|c| decode(c.as_u64().unwrap_or(0) as usize)).collect())
+        .unwrap_or_default();
+    println!("C36 replay: {} name(s), history:", n_names);
+    for o in &ops {
+        println!("  {}", label(o));
+    }
+    let res = run_history(&ops, n_names, false);
+    println!("observations:");
+    for l in &res.log {
+        println!("  {l}");
+    }
+    if let Some(m) = &res.machinery {
+        println!("machinery problem: {m}");
+        return 2;
+    }
+    if res.violations.is_empty() {
+        println!("no clause violated");
+        0
+    } else {
+        for v in &res.violations {
+            println!("violated at step {}: {} — {}", v.step, v.clause, v.detail);
+        }
+        let clean = run_history(&ops, n_names, true);
+        println!(
+            "same history without forged signals: {} violation(s)",
+            clean.violations.len()
+        );
+        1
+    }
 }
